@@ -53,6 +53,8 @@ def run(prop, seed=0, out=print):
             extract.REPO = scratch
             try:
                 mod.run(ctx)
+                from .rules import common
+                ctx.run(f"{prop}-Q0", "exact lints over the property's anchor files", common.anchored_lints(prop), floor=1)
             finally:
                 extract.REPO = saved
             ctx.finish_floors()
